@@ -48,7 +48,7 @@ type yearCase struct{ Y int }
 
 var wellFormed = ev.Register(&ev.P[yearCase]{
 	Name: "year_wellformed",
-	Rule: "every lunar year (hot years quick, all 1..9998 thorough); oracle: the 15-month table is contiguous (first(next) = first + dayCount) with 29/30-day months and fractional part .5 day numbers; GetMonthsInYear/GetMonth/GetLeapMonth/GetDayCount agree with the table; outside AD 8-23 and 236-240: 12 or 13 months numbered 1..12 in order with at most one leap directly after its namesake, year length in {353,354,355,383,384,385}, leap year <=> 13 months, and the last day of the year is followed (Lunar.Next(1)) by 1/1 of the next year; non-trivial: leap year, override-list year or neighbour, borders a reform era, 1582, range ends",
+	Rule: "every lunar year (hot years quick, all 1..9998 thorough); oracle: the 15-month table is contiguous (first(next) = first + dayCount) with 29/30-day months and fractional part .5 day numbers; GetMonthsInYear/GetMonth/GetLeapMonth/GetDayCount agree with the table; outside AD 8-23 and 236-240: 12 or 13 months numbered 1..12 in order with at most one leap directly after its namesake, year length in {353,354,355,383,384,385}, leap year <=> 13 months, the last day of the year is followed (Lunar.Next(1)) by 1/1 of the next year and is the only month end of the year reporting 除夕; non-trivial: leap year, override-list year or neighbour, borders a reform era, 1582, range ends",
 	Check: func(c yearCase) error {
 		y := c.Y
 		ly := calendar.NewLunarYear(y)
@@ -157,6 +157,19 @@ var wellFormed = ev.Register(&ev.P[yearCase]{
 			nx := eve.Next(1)
 			if nx.GetYear() != y+1 || nx.GetMonth() != 1 || nx.GetDay() != 1 {
 				return fmt.Errorf("year %d: the day after %d/%d/%d is %d/%d/%d", y, y, last.M, last.DC, nx.GetYear(), nx.GetMonth(), nx.GetDay())
+			}
+			// New Year's Eve is reported on the year's last day and on no other month end of the year
+			for i, mm := range in {
+				f := calendar.NewLunarFromYmd(y, mm.M, mm.DC).GetFestivals()
+				has := false
+				for e := f.Front(); e != nil; e = e.Next() {
+					if e.Value.(string) == "除夕" {
+						has = true
+					}
+				}
+				if has != (i == len(in)-1) {
+					return fmt.Errorf("year %d: 除夕 reported=%v on %d/%d/%d, which is the last day of month %d of %d", y, has, y, mm.M, mm.DC, i+1, len(in))
+				}
 			}
 			ny := inYear(y + 1)
 			if ny[0].M != 1 || ny[0].First != last.First+last.DC {
